@@ -1,10 +1,28 @@
 /-
   Props/C08 — an idle rollapp's proposer is slashed on schedule; an active one never.
-  (Arithmetic clauses about the function regenerated from `NextSlashHeight`; the invariant clauses
-  about the event queue are in progress — see DESIGN.md.)
+
+  Part 1: arithmetic clauses about the function regenerated from `NextSlashHeight`.
+  Part 2: the liveness-event queue in every reachable state (one event per rollapp, events and
+          records agree, events on the grid and — with consecutive blocks — in the future).
+  Part 3: the slash itself (no proposer: nothing; real proposer: exact amount and dishonor).
+  Part 4: an accepted update restarts the clock and honours the proposer; a proposer change restarts
+          the clock; a fork resets it and removes the event.
+  Part 5: the schedule: which block ends slash, one block, any number of idle blocks; an active
+          rollapp is never slashed.
+
+  Hypotheses that appear below and why:
+  * `1 ≤ p.lsInterval` — enforced by parameter validation (with interval 0 the Go function divides by 0).
+  * `BlocksOk ops` / `ops.foldl phaseStep (some false) = some false` — hub heights are consecutive
+    (assumption A-height): the model's `run` accepts arbitrary op lists, including two `begin_` without
+    an `end_`, which would skip a block end; `event_in_future_needs_consecutive_blocks` shows the
+    hypothesis is needed.  The second form says in addition that the state is between blocks.
+  No other hypotheses: that the proposer of a rollapp proposes for no other rollapp (needed so that
+  another rollapp's event in the same block end cannot touch the same bond) is itself proved for all
+  reachable states (`proposer_is_own_sequencer`, `proposes_for_one_rollapp`).
 -/
 import DymVerif.Lemmas.CoreLiveness
 import DymVerif.Lemmas.GenEqArith
+import DymVerif.Lemmas.CoreLevFork
 namespace DymVerif.C08
 open DymVerif DymVerif.Core
 
@@ -14,6 +32,8 @@ theorem reject_unchanged (s : St) (o : Op) (e : Err) (h : (step s o).2 = some e)
   cases h' : apply s o with
   | ok s' => simp [h'] at h
   | error e' => simp [h']
+
+-- ================================================================ Part 1: NextSlashHeight
 
 /-- the scheduled liveness event always lies strictly in the future — for every
     `LivenessSlashBlocks` N ≥ 0 and `LivenessSlashInterval` I ≥ 1 (including 1), about the function
@@ -48,5 +68,346 @@ theorem slash_amount_le_bond (tokens abs tm : Nat) : min tokens (max abs tm) ≤
 
 -- non-vacuity: N = I = 1 (the smallest accepted parameters), idle for 3 blocks
 example : Gen.Arith.nextSlashHeight 1 1 10 7 = 11 := by decide
+
+-- ================================================================ Part 2: the event queue, every reachable state
+
+/-- every queued liveness event belongs to an existing rollapp whose record carries that height -/
+theorem event_belongs_to_rollapp (p : Params) (ops : List Op) :
+    ∀ e ∈ (run p ops).lev, ∃ r, getRa (run p ops) e.2 = some r ∧ r.evH = e.1 := (run_lev p ops).ev_ra
+
+/-- **at most one liveness event is scheduled per rollapp** — for all parameters and op sequences -/
+theorem one_event_per_rollapp (p : Params) (ops : List Op) : ((run p ops).lev.map (·.2)).Nodup :=
+  (run_lev p ops).one
+
+/-- the event height recorded in a rollapp is either "none" (0) or exactly its queued event -/
+theorem recorded_event_is_queued (p : Params) (ops : List Op) :
+    ∀ r ∈ (run p ops).ras, r.evH = 0 ∨ (r.evH, r.id) ∈ (run p ops).lev := (run_lev p ops).ra_ev
+
+/-- one record per rollapp id (so `∀ r ∈ ras` and `getRa` speak about the same records) -/
+theorem one_record_per_rollapp (p : Params) (ops : List Op) : ((run p ops).ras.map (·.id)).Nodup :=
+  run_ids p ops
+
+theorem record_lookup (p : Params) (ops : List Op) (r : Rollapp) (hr : r ∈ (run p ops).ras) :
+    getRa (run p ops) r.id = some r := (run_ids p ops).getRa_of_mem hr
+
+/-- a scheduled event is never earlier than `LivenessSlashBlocks` after the countdown start
+    (last accepted update, proposer change or fork), and the hub height is positive -/
+theorem event_not_before_window (p : Params) (ops : List Op) :
+    1 ≤ (run p ops).h ∧ ∀ r ∈ (run p ops).ras, r.evH = 0 ∨ r.cdStart + p.lsBlocks ≤ r.evH := by
+  have := run_grid p ops
+  have hp := run_p p ops
+  exact ⟨this.hpos, fun r hr => by have := this.ev r hr; rw [hp] at this; exact this⟩
+
+/-- **the scheduled event always lies in the future**: with consecutive blocks, in every reachable
+    state no event lies in the past and every countdown start does … -/
+theorem event_never_in_past (p : Params) (hI : 1 ≤ p.lsInterval) (ops : List Op) (hb : BlocksOk ops) :
+    ∀ r ∈ (run p ops).ras, r.cdStart ≤ (run p ops).h ∧ (r.evH = 0 ∨ (run p ops).h ≤ r.evH) := by
+  intro r hr
+  have := run_fut p hI ops hb
+  exact ⟨this.cd r hr, (this.ev r hr).imp id (fun h => by omega)⟩
+
+/-- … and after every block end every scheduled event lies strictly in the future -/
+theorem event_in_future_after_end (p : Params) (hI : 1 ≤ p.lsInterval) (ops : List Op) (hb : BlocksOk ops)
+    (f : List (Nat × Nat)) :
+    ∀ r ∈ (step (run p ops) (.end_ f)).1.ras, r.evH = 0 ∨ (step (run p ops) (.end_ f)).1.h < r.evH := by
+  have h := run_lcf p hI ops
+  have hf : Fut 0 (endBlock (run p ops) f) := by
+    unfold BlocksOk at hb
+    cases hph : ops.foldl phaseStep (some false) with
+    | none => rw [hph] at hb; cases hb
+    | some b =>
+      have hfut := h.fut
+      rw [hph] at hfut
+      cases b with
+      | true => exact endBlock_fut (Nat.le_refl 1) h.lev h.cust hfut
+      | false => exact endBlock_fut (Nat.zero_le 1) h.lev h.cust hfut
+  intro r hr
+  show r.evH = 0 ∨ (endBlock (run p ops) f).h < r.evH
+  exact (hf.ev r hr).imp id (fun h => by omega)
+
+/-- between blocks (with consecutive blocks) every scheduled event sits *exactly* at the next slash
+    height of its rollapp: the least `cdStart + N + k·I` above the current height -/
+theorem event_exactly_at_next_slash_height (p : Params) (hI : 1 ≤ p.lsInterval) (ops : List Op)
+    (hph : ops.foldl phaseStep (some false) = some false) :
+    ∀ r ∈ (run p ops).ras, r.evH = 0 ∨ r.evH = nextSlashHeight p.lsBlocks p.lsInterval (run p ops).h r.cdStart :=
+  run_exact_between p hI ops hph
+
+/-- proposer and successor of every rollapp are sequencers of that very rollapp (and sequencer
+    addresses are unique) … -/
+theorem proposer_is_own_sequencer (p : Params) (ops : List Op) (id : Nat) (r : Rollapp) (a : Addr)
+    (hg : getRa (run p ops) id = some r) (ha : r.proposer = some a ∨ r.successor = some a) :
+    ∃ q, getSeq (run p ops) a = some q ∧ q.rollapp = id := (run_own p ops).own id r a hg ha
+
+/-- … hence an address proposes for at most one rollapp -/
+theorem proposes_for_one_rollapp (p : Params) (ops : List Op) (id id' : Nat) (r r' : Rollapp) (a : Addr)
+    (hg : getRa (run p ops) id = some r) (hp : r.proposer = some a)
+    (hg' : getRa (run p ops) id' = some r') (hp' : r'.proposer = some a) : id' = id :=
+  run_uniq p ops hg hp id' r' hg' hp'
+
+-- ================================================================ Part 3: the slash
+
+/-- **a rollapp with no proposer is not slashed**: `SlashLiveness` is the identity … -/
+theorem no_proposer_no_slash (s : St) (r : Rollapp) (h : r.proposer = none) : slashLiveness s r = .ok s := by
+  unfold slashLiveness; rw [h]
+
+/-- … and its liveness event changes no sequencer record and moves no money (it only reschedules) -/
+theorem no_proposer_event_moves_nothing (s : St) (ra : Nat) (r : Rollapp) (hg : getRa s ra = some r)
+    (h : r.proposer = none) :
+    (handleLivenessEvent s ra).seqs = s.seqs ∧ (handleLivenessEvent s ra).modBal = s.modBal ∧
+    (handleLivenessEvent s ra).burned = s.burned ∧ (handleLivenessEvent s ra).bal = s.bal := by
+  rw [handleLivenessEvent_eq hg (no_proposer_no_slash s r h)]
+  exact ⟨rfl, rfl, rfl, rfl⟩
+
+/-- **each time losing min(bond, max(absolute minimum, bond × multiplier)) and gaining dishonor**:
+    a liveness event of a rollapp with a real proposer (record `q`), in any state where bonds are
+    backed (every reachable state: `C06.custody_inv`), takes exactly that amount from the bond,
+    burns it from the module account, and adds `DishonorLiveness` -/
+theorem slash_amount_exact (s : St) (ra : Nat) (r : Rollapp) (a : Addr) (q : Seq) (hc : Cust s)
+    (hg : getRa s ra = some r) (hp : r.proposer = some a) (hq : getSeq s a = some q) :
+    getSeq (handleLivenessEvent s ra) a =
+      some { q with tokens := q.tokens - min q.tokens (max s.p.lsAbs ((s.p.lsMul.mulInt q.tokens).truncateInt).toNat),
+                    dishonor := q.dishonor + s.p.dishonorL } ∧
+    (handleLivenessEvent s ra).modBal + min q.tokens (max s.p.lsAbs ((s.p.lsMul.mulInt q.tokens).truncateInt).toNat) = s.modBal ∧
+    (handleLivenessEvent s ra).burned = s.burned + min q.tokens (max s.p.lsAbs ((s.p.lsMul.mulInt q.tokens).truncateInt).toNat) := by
+  have := handleLivenessEvent_self hc hg hp hq
+  exact ⟨this.2.1, this.2.2.1, this.2.2.2⟩
+
+/-- in reachable states the slash never fails (so the event is always consumed and rescheduled) -/
+theorem slash_never_fails (p : Params) (ops : List Op) (r : Rollapp) :
+    ∃ s1, slashLiveness (run p ops) r = .ok s1 := slashLiveness_ok (run_cust p ops) r
+
+/-- `slashOnce` is that record transformation -/
+theorem slashOnce_fields (p : Params) (q : Seq) :
+    (slashOnce p q).tokens = q.tokens - min q.tokens (max p.lsAbs ((p.lsMul.mulInt q.tokens).truncateInt).toNat) ∧
+    (slashOnce p q).dishonor = q.dishonor + p.dishonorL ∧ (slashOnce p q).addr = q.addr ∧
+    (slashOnce p q).rollapp = q.rollapp ∧ (slashOnce p q).bonded = q.bonded ∧ (slashOnce p q).optedIn = q.optedIn ∧
+    (slashOnce p q).notice = q.notice := ⟨rfl, rfl, rfl, rfl, rfl, rfl, rfl⟩
+
+-- ================================================================ Part 4: accepted updates
+
+/-- **counted from its last accepted update**: every accepted update (also the proposer's last
+    one) sets the countdown start to the current height and schedules the rollapp's event at the
+    next slash height from there -/
+theorem update_resets_clock (s s' : St) (m : UpdMsg) (h : updateState s m = .ok s') :
+    ∃ r', getRa s' m.ra = some r' ∧ r'.cdStart = s.h ∧
+      r'.evH = nextSlashHeight s.p.lsBlocks s.p.lsInterval s.h s.h ∧ (r'.evH, m.ra) ∈ s'.lev :=
+  updateState_clock h
+
+/-- **each accepted update reduces its dishonor**: an accepted update that is not the proposer's
+    last block restarts the clock, keeps the proposer, and lowers the proposer's dishonor by
+    `min(DishonorStateUpdate, dishonor)` (nothing else of the sequencer record changes) -/
+theorem update_resets_clock_and_honors (s s' : St) (m : UpdMsg) (r : Rollapp) (q : Seq)
+    (hr : getRa s m.ra = some r) (hq : getSeq s m.sender = some q) (hl : m.last = false)
+    (h : updateState s m = .ok s') :
+    (∃ r', getRa s' m.ra = some r' ∧ r'.cdStart = s.h ∧
+      r'.evH = nextSlashHeight s.p.lsBlocks s.p.lsInterval s.h s.h ∧ r'.proposer = r.proposer ∧
+      (r'.evH, m.ra) ∈ s'.lev) ∧
+    getSeq s' m.sender = some { q with dishonor := q.dishonor - min s.p.dishonorSU q.dishonor } := by
+  have := updateState_nonlast hr hq hl h
+  exact ⟨⟨_, this.1, rfl, rfl, rfl, this.2.2⟩, this.2.1⟩
+
+/-- every accepted update in a reachable state — also the proposer's last one, which hands the
+    rollapp over or forks it — lowers the sender's dishonor by `min(DishonorStateUpdate, dishonor)` -/
+theorem update_honors_proposer (p : Params) (ops : List Op) (m : UpdMsg) (s' : St) (q : Seq)
+    (hq : getSeq (run p ops) m.sender = some q) (h : updateState (run p ops) m = .ok s') :
+    (getSeq s' m.sender).map (·.dishonor) = some (q.dishonor - min p.dishonorSU q.dishonor) := by
+  have := updateState_honors (run_lev p ops) hq h
+  rw [run_p] at this
+  exact this
+
+/-- **… proposer change …**: a rollapp that gets a real proposer (leaving the sentinel state) starts
+    a fresh countdown at the current height with its event at the next slash height (the hand-over to
+    a successor happens inside an accepted last update and is covered by `update_resets_clock`) -/
+theorem proposer_change_resets_clock (s s' : St) (ra : Nat) (h : recoverFromSentinel s ra = .ok s') :
+    ∃ r' a, getRa s' ra = some r' ∧ r'.proposer = some a ∧ r'.cdStart = s.h ∧
+      r'.evH = nextSlashHeight s.p.lsBlocks s.p.lsInterval s.h s.h ∧ (r'.evH, ra) ∈ s'.lev :=
+  recoverFromSentinel_clock h
+
+/-- **… or fork**: a hard fork of a rollapp in a reachable state sets its countdown start to the
+    current height and leaves it without any liveness event (the next proposer change schedules one) -/
+theorem fork_resets_clock (p : Params) (ops : List Op) (ra lv : Nat) (s' : St) (h : hardFork (run p ops) ra lv = .ok s') :
+    (∃ r', getRa s' ra = some r' ∧ r'.evH = 0 ∧ r'.cdStart = (run p ops).h) ∧ ∀ hh, (hh, ra) ∉ s'.lev := by
+  have := hardFork_clock (run_lev p ops) h
+  exact ⟨this.1, this.2.1⟩
+
+/-- the event scheduled by an update at height `h` is at `h + LivenessSlashBlocks` (N ≥ 1) … -/
+theorem first_event_height (N I h : Nat) (hN : 1 ≤ N) : nextSlashHeight N I h h = h + N :=
+  nextSlashHeight_fresh N I h hN
+
+/-- … and in the edge case N = 0 (not excluded by the function itself) one interval after it -/
+theorem first_event_height_N0 (I h : Nat) (hI : 1 ≤ I) : nextSlashHeight 0 I h h = h + I :=
+  nextSlashHeight_fresh_zero I h hI
+
+-- ================================================================ Part 5: the schedule
+
+/-- the liveness event of a rollapp fires at a block end iff the record carries the current height -/
+theorem event_fires_iff (p : Params) (ops : List Op) (ra : Nat) (r : Rollapp) (hg : getRa (run p ops) ra = some r) :
+    ((run p ops).h, ra) ∈ (run p ops).lev ↔ r.evH = (run p ops).h :=
+  due_iff (run_lev p ops) (run_grid p ops).hpos hg
+
+/-- a block end at a height other than the rollapp's event height does not touch its clock, event
+    or proposer, and leaves its proposer's record (bond, dishonor, …) exactly as it was -/
+theorem end_before_event_height_does_not (p : Params) (ops : List Op) (f : List (Nat × Nat)) (ra : Nat) (r : Rollapp)
+    (hg : getRa (run p ops) ra = some r) (hne : r.evH ≠ (run p ops).h) :
+    (∃ r', getRa (step (run p ops) (.end_ f)).1 ra = some r' ∧ r'.evH = r.evH ∧ r'.cdStart = r.cdStart ∧
+      r'.proposer = r.proposer) ∧
+    (∀ a, r.proposer = some a → getSeq (step (run p ops) (.end_ f)).1 a = getSeq (run p ops) a) := by
+  have := endBlock_not_due (f := f) (run_lev p ops) hg hne
+  exact ⟨this.1, fun a hp => this.2 a (run_uniq p ops hg hp)⟩
+
+/-- the block end at the rollapp's event height reschedules the event to the next slash height
+    computed from the current height (whatever else is due in the same block end) … -/
+theorem event_rescheduled (p : Params) (ops : List Op) (f : List (Nat × Nat)) (ra : Nat) (r : Rollapp)
+    (hg : getRa (run p ops) ra = some r) (hev : r.evH = (run p ops).h) :
+    ∃ r', getRa (step (run p ops) (.end_ f)).1 ra = some r' ∧
+      r'.evH = nextSlashHeight p.lsBlocks p.lsInterval (run p ops).h r.cdStart ∧ r'.cdStart = r.cdStart ∧
+      r'.proposer = r.proposer := by
+  have hm := (event_fires_iff p ops ra r hg).2 hev
+  have := (endBlock_due (f := f) (run_lev p ops) (run_cust p ops) hg hm).1
+  rw [run_p] at this
+  exact this
+
+/-- … which for an event on the grid `cdStart + N + j·I` is exactly one interval later -/
+theorem event_rescheduled_one_interval_later (p : Params) (hI : 1 ≤ p.lsInterval) (ops : List Op) (f : List (Nat × Nat))
+    (ra : Nat) (r : Rollapp) (j : Nat) (hg : getRa (run p ops) ra = some r)
+    (hev : r.evH = (run p ops).h) (hgrid : r.evH = r.cdStart + p.lsBlocks + j * p.lsInterval) :
+    ∃ r', getRa (step (run p ops) (.end_ f)).1 ra = some r' ∧ r'.evH = r.evH + p.lsInterval := by
+  obtain ⟨r', h1, h2, _⟩ := event_rescheduled p ops f ra r hg hev
+  refine ⟨r', h1, ?_⟩
+  rw [h2, ← hev, hgrid, nextSlashHeight_step _ _ _ _ hI, Nat.add_mul]
+  omega
+
+/-- … and slashes the real proposer exactly once: across the whole block end (finalization and all
+    liveness events of that height) its record changes by exactly one `slashOnce` -/
+theorem end_at_event_height_slashes (p : Params) (ops : List Op) (f : List (Nat × Nat)) (ra : Nat) (r : Rollapp)
+    (a : Addr) (q : Seq) (hg : getRa (run p ops) ra = some r) (hev : r.evH = (run p ops).h)
+    (hp : r.proposer = some a) (hq : getSeq (run p ops) a = some q) :
+    getSeq (step (run p ops) (.end_ f)).1 a = some (slashOnce p q) := by
+  have hm := (event_fires_iff p ops ra r hg).2 hev
+  have := (endBlock_due (f := f) (run_lev p ops) (run_cust p ops) hg hm).2 a q (run_uniq p ops hg hp) hp hq
+  rw [run_p] at this
+  exact this
+
+/-- the proposer's record after an idle block that starts between blocks at height `H`: slashed
+    iff `H + 1` is a grid point `c + N + j·I` … -/
+theorem idle_block_on_grid (p : Params) (c H : Nat) (q : Seq) (hI : 1 ≤ p.lsInterval) (hc : c ≤ H)
+    (hg : ∃ j, H + 1 = c + p.lsBlocks + j * p.lsInterval) : idleBlock p c H q = slashOnce p q := by
+  unfold idleBlock; rw [if_pos ((nextSlashHeight_eq_succ_iff _ _ _ _ hI hc).2 hg)]
+
+/-- … and untouched otherwise -/
+theorem idle_block_off_grid (p : Params) (c H : Nat) (q : Seq) (hI : 1 ≤ p.lsInterval) (hc : c ≤ H)
+    (hg : ¬ ∃ j, H + 1 = c + p.lsBlocks + j * p.lsInterval) : idleBlock p c H q = q := by
+  unfold idleBlock; rw [if_neg (fun h => hg ((nextSlashHeight_eq_succ_iff _ _ _ _ hI hc).1 h))]
+
+theorem idle_seq_zero (p : Params) (c H : Nat) (q : Seq) : idleSeq p c H 0 q = q := rfl
+theorem idle_seq_succ (p : Params) (c H k : Nat) (q : Seq) :
+    idleSeq p c H (k + 1) q = idleSeq p c (H + 1) k (idleBlock p c H q) := rfl
+
+/-- **an idle rollapp's proposer is slashed on schedule**: take any reachable state between blocks
+    in which rollapp `ra` has a real proposer `a` (record `q`) and an event scheduled; let any number
+    of blocks pass (`begin_ dt`, `end_ f` with arbitrary time steps and finalization failures)
+    without a message.  Then the hub height advanced by that many blocks, the countdown start and
+    the proposer are unchanged, the event is again at the next slash height, and the proposer's
+    record is `idleSeq`: slashed (bond and dishonor, `slashOnce`) at the end of exactly the blocks
+    whose height is a grid point `cdStart + N + j·I`, and untouched by every other block
+    (`idle_block_on_grid/off_grid`). -/
+theorem idle_slashed_on_schedule (p : Params) (hI : 1 ≤ p.lsInterval) (ops : List Op)
+    (hph : ops.foldl phaseStep (some false) = some false)
+    (ra : Nat) (r : Rollapp) (a : Addr) (q : Seq)
+    (hg : getRa (run p ops) ra = some r) (hp : r.proposer = some a) (hq : getSeq (run p ops) a = some q)
+    (hev : r.evH ≠ 0) (bs : List (Nat × List (Nat × Nat))) :
+    (run p (ops ++ blockOps bs)).h = (run p ops).h + bs.length ∧
+    (∃ r', getRa (run p (ops ++ blockOps bs)) ra = some r' ∧ r'.cdStart = r.cdStart ∧ r'.proposer = some a ∧
+      r'.evH = nextSlashHeight p.lsBlocks p.lsInterval ((run p ops).h + bs.length) r.cdStart) ∧
+    getSeq (run p (ops ++ blockOps bs)) a = some (idleSeq p r.cdStart (run p ops).h bs.length q) := by
+  obtain ⟨hl, hc, hf⟩ := run_between_blocks p hI ops hph
+  have hev' : r.evH = nextSlashHeight p.lsBlocks p.lsInterval (run p ops).h r.cdStart := by
+    rcases run_exact_between p hI ops hph r (getRa_mem hg) with h1 | h1
+    · exact absurd h1 hev
+    · exact h1
+  have hinv : IdleInv a ra r.cdStart q (run p ops) := by
+    refine ⟨hl, hc, hf, run_uniq p ops hg hp, ?_, hq⟩
+    rw [hg, run_p]
+    show some (r.evH, r.cdStart, r.proposer) = _
+    rw [hev', hp]
+  obtain ⟨h1, h2, h3⟩ := blocks_idle bs _ _ hinv
+  rw [run_append, runBlocks_eq_steps]
+  rw [run_p] at h1
+  obtain ⟨r', hr', he', hcd', hp'⟩ := map_liv_some h1.ra
+  refine ⟨h2, ⟨r', hr', hcd', hp', ?_⟩, h1.seq⟩
+  rw [he']
+  show nextSlashHeight (runBlocks (run p ops) bs).p.lsBlocks (runBlocks (run p ops) bs).p.lsInterval
+    (runBlocks (run p ops) bs).h r.cdStart = _
+  rw [h3, h2, run_p]
+
+/-- **an active one never**: in every reachable state, a block end inside the window
+    `[cdStart, cdStart + LivenessSlashBlocks)` of a rollapp — i.e. whenever an update was accepted
+    (or the proposer changed) less than `LivenessSlashBlocks` blocks ago — neither fires its
+    liveness event nor touches its proposer's bond or dishonor.  A proposer that posts an update in
+    every window therefore never meets a block end that slashes it for liveness. -/
+theorem active_never_slashed (p : Params) (ops : List Op) (f : List (Nat × Nat)) (ra : Nat) (r : Rollapp)
+    (hg : getRa (run p ops) ra = some r) (hw : (run p ops).h < r.cdStart + p.lsBlocks) :
+    ((run p ops).h, ra) ∉ (run p ops).lev ∧
+    (∃ r', getRa (step (run p ops) (.end_ f)).1 ra = some r' ∧ r'.evH = r.evH ∧ r'.cdStart = r.cdStart ∧
+      r'.proposer = r.proposer) ∧
+    (∀ a, r.proposer = some a → getSeq (step (run p ops) (.end_ f)).1 a = getSeq (run p ops) a) := by
+  have hne : r.evH ≠ (run p ops).h := (run_grid p ops).not_due hg (by rw [run_p]; exact hw)
+  have := end_before_event_height_does_not p ops f ra r hg hne
+  exact ⟨fun hm => hne ((event_fires_iff p ops ra r hg).1 hm), this.1, this.2⟩
+
+-- ================================================================ non-vacuity and boundary witnesses
+
+def exParams : Params where
+  dispute := 2
+  lsBlocks := 2
+  lsInterval := 1
+  lsMul := ⟨500000000000000000⟩      -- 0.5
+  lsAbs := 3
+  dishonorSU := 1
+  dishonorL := 2
+  kickThr := 100
+  noticePeriod := 10
+
+def exBds (start n : Nat) : List BD :=
+  (List.range n).map fun i => { height := start + i, hasTs := true, drs := 1, rootOk := true }
+def exUpd (start n : Nat) (last : Bool) : Op :=
+  .update { ra := 0, sender := 1, start := start, num := n, rev := 0, last := last, bds := exBds start n }
+
+/-- rollapp 0 with proposer 1 (bond 40) posts one update at height 1, the block ends -/
+def exPre : List Op := [.createRollapp 0 9 10, .fund 1 100, .createSeq 1 0 40 true, exUpd 1 3 false, .end_ []]
+
+-- the update scheduled the single event at 1 + N = 3; we are between blocks
+example : (run exParams exPre).lev = [(3, 0)] ∧ exPre.foldl phaseStep (some false) = some false := by decide
+
+-- idle for four blocks (heights 2..5): slashed at 3, 4, 5 (N = 2, I = 1): 40 → 20 → 10 → 5,
+-- dishonor 3·2, everything burned, next event at 6
+example : let s := run exParams (exPre ++ blockOps [(5, []), (5, []), (5, []), (5, [])])
+    s.h = 5 ∧ s.lev = [(6, 0)] ∧ s.seqs.map (fun q => (q.tokens, q.dishonor)) = [(5, 6)] ∧ s.burned = 35 ∧ s.modBal = 5 := by
+  decide
+
+-- the same through the closed form
+example : let q : Seq := { addr := 1, rollapp := 0, bonded := true, optedIn := true, tokens := 40, dishonor := 0, notice := none }
+    ((idleSeq exParams 1 1 4 q).tokens, (idleSeq exParams 1 1 4 q).dishonor) = (5, 6) := by decide
+
+-- an active proposer: an update in every block, never slashed, dishonor stays 0
+example : let s := run exParams (exPre ++ [.begin_ 5, exUpd 4 1 false, .end_ [], .begin_ 5, exUpd 5 1 false, .end_ [],
+      .begin_ 5, exUpd 6 1 false, .end_ []])
+    s.h = 4 ∧ s.lev = [(6, 0)] ∧ s.seqs.map (fun q => (q.tokens, q.dishonor)) = [(40, 0)] ∧ s.burned = 0 := by decide
+
+/-- the consecutive-blocks hypothesis of `event_in_future_after_end` is needed: the model accepts an
+    op list with three `begin_` in a row, after which the event (height 3) lies in the past (height 4)
+    even after the block end -/
+theorem event_in_future_needs_consecutive_blocks :
+    let s := (step (run exParams (exPre ++ [.begin_ 1, .begin_ 1, .begin_ 1])) (.end_ [])).1
+    s.h = 4 ∧ s.ras.map (·.evH) = [3] ∧ ¬ BlocksOk (exPre ++ [.begin_ 1, .begin_ 1, .begin_ 1]) := by decide
+
+/-- "every rollapp with an event has a real proposer" is *not* an invariant: the proposer's last
+    update (notice period elapsed, no successor) forks the rollapp to the sentinel proposer and then
+    `IndicateLiveness` schedules an event all the same; that event later fires without slashing
+    (`no_proposer_no_slash`) and is rescheduled -/
+theorem event_without_proposer_possible :
+    let s := run exParams [.createRollapp 0 9 10, .fund 1 100, .createSeq 1 0 40 true, exUpd 1 3 false, .bridge 0 1,
+      .unbond 1, .end_ [], .begin_ 20, exUpd 4 1 true]
+    s.ras.map (fun r => (r.evH, r.proposer)) = [(4, none)] ∧ s.lev = [(4, 0)] := by decide
 
 end DymVerif.C08
